@@ -242,10 +242,12 @@ func (C02) RunGo(line string) string {
 			if h != (pmtiles.HeaderV3{}) {
 				leak = " with-decoded-header"
 			}
-			if strings.Contains(err.Error(), "magic") {
+			// the class is read off the input, not off the wording of the message: wrong magic number, else a
+			// version byte above 3, else something a 127-byte v3 header should not be rejected for
+			if len(d) >= 7 && string(d[:7]) != "PMTiles" {
 				return "err badmagic" + leak
 			}
-			if strings.Contains(err.Error(), "version") {
+			if len(d) >= 8 && d[7] > 3 {
 				return "err badversion" + leak
 			}
 			return "err other" + leak
